@@ -453,7 +453,12 @@ func (s *Storer) newAofWCloseObserver(w *AofWriter, ds *dataSet) func(args ...in
 		size := args[1].(int64)
 
 		if size == 0 {
-			ds.trimLastEmptyAof()
+			// the empty segment and its file disappear: readers waiting on it must end,
+			// a later reset no longer finds them and they would follow whatever file
+			// is created under the same name next
+			if trimmed := ds.trimLastEmptyAof(); trimmed != nil {
+				trimmed.Close()
+			}
 			return
 		}
 
